@@ -269,25 +269,6 @@ def prefilters(P, g, rep, prefix="C14.prefilter"):
     if nfilters and r is None:
         rep.unprovable("%s|code_part-grammar" % prefix, "grammar rule code_part not found")
     elif r is not None:
-        node = top_seq(r["expr"])
-        body = node[1][0][1] if node[0] == "seq" and node[1] else None
-        ok = body is not None and body[0] == "rep"
-        why = ""
-        if ok:
-            names = []
-            for a in alts(body[1]):
-                a = top_seq(a)
-                els = [top_seq(e) for _, e in a[1]] if a[0] == "seq" else [a]
-                if len(els) == 1 and els[0][0] == "call":
-                    names.append(els[0][1])
-                    continue
-                inner = top_seq(els[0][1]) if len(els) == 1 and els[0][0] == "slice" else (a if a[0] == "seq" else None)
-                ie = [top_seq(e) for _, e in inner[1]] if inner is not None and inner[0] == "seq" else []
-                if len(ie) == 2 and ie[0][0] == "not" and is_call(top_seq(ie[0][1]), "comment") and ie[1][0] == "class" and ie[1][3]:
-                    names.append("<any-but-comment>")
-                else:
-                    names.append("<other>")
-            ok = sorted(names[:-1]) == ["ch", "string"] and names[-1:] == ["<any-but-comment>"]
-            why = str(names)
-        rep.ob("%s|code_part-grammar" % prefix, ok, "code_part steps over string() and ch() whole and stops in front of comment()" if ok else
-               "code_part does not have the shape (string() / ch() / !comment() [_])* : %s" % why)
+        # decided by matching sample lines against the rule (the earlier rule on the rule's shape was withdrawn with the grammar's rewrite)
+        import layout_match
+        layout_match.check_code_part(g, rep, "%s|code_part-grammar" % prefix)
